@@ -542,3 +542,242 @@ B('c16i_response_alias_rebound_before_save', ['C16'], 'R16.d',
              '        cookie.save_cookie(out, **save_cookie_kwargs)\n        return response\n'))
 T('c16i_response_alias_saved_and_returned', ['C16'],
   (CK, _RET, '        out = response\n        cookie.save_cookie(out, **save_cookie_kwargs)\n        return out\n'))
+
+# ---------------------------------------------------------------- R16.d: "no _expires entry" through one lookup with a sentinel default
+_SENT = (CK, 'NOW = \'now\'\n', 'NOW = \'now\'\n_MISSING = object()\n')
+_SAVE_SENT = ("        if expires is not _MISSING:\n            save_cookie_kwargs['expires'] = expires\n"
+              "        cookie.save_cookie(response, **save_cookie_kwargs)\n")
+_STAMP_SENT = ("        has_lifetime = self.expiry != NEVER and self.expiry != SESSION\n"
+               "        expires = cookie.get('_expires', _MISSING)\n"
+               "        if has_lifetime and expires is _MISSING:\n"
+               "            expires = cookie['_expires'] = time.time() + self.expiry\n")
+T('c16i_stamp_sentinel_lookup', ['C16'], _SENT, (CK, _STAMP, _STAMP_SENT), (CK, _SAVE, _SAVE_SENT))
+T('c16i_stamp_sentinel_inline_reversed', ['C16'], _SENT,
+  (CK, _STAMP, "        if self.expiry not in (NEVER, SESSION) and _MISSING is cookie.get('_expires', _MISSING):\n"
+               "            cookie['_expires'] = time.time() + self.expiry\n"))
+T('c16i_stamp_sentinel_guard_clause', ['C16'], _SENT,
+  (CK, _STAMP, "        current = cookie.get('_expires', _MISSING)\n        if current is not _MISSING:\n            pass\n"
+               "        elif self.expiry != NEVER and self.expiry != SESSION:\n            cookie['_expires'] = time.time() + self.expiry\n"))
+B('c16i_stamp_sentinel_lookup_before_endpoint', ['C16'], 'R16.d', _SENT,
+  (CK, _NEXT + _STAMP, "        expires = cookie.get('_expires', _MISSING)\n" + _NEXT + _STAMP_SENT.replace("        expires = cookie.get('_expires', _MISSING)\n", '')),
+  (CK, _SAVE, _SAVE_SENT))
+B('c16i_stamp_sentinel_wrong_polarity', ['C16'], 'R16.d', _SENT,
+  (CK, _STAMP, _STAMP_SENT.replace('and expires is _MISSING', 'and expires is not _MISSING')), (CK, _SAVE, _SAVE_SENT))
+B('c16i_stamp_sentinel_other_key', ['C16'], 'R16.d', _SENT,
+  (CK, _STAMP, _STAMP_SENT.replace("cookie.get('_expires', _MISSING)", "cookie.get('expires', _MISSING)")), (CK, _SAVE, _SAVE_SENT))
+B('c16i_stamp_lookup_default_none', ['C16'], 'R16.d',
+  (CK, _STAMP, "        if self.expiry != NEVER and self.expiry != SESSION and cookie.get('_expires') is None:\n"
+               "            cookie['_expires'] = time.time() + self.expiry\n"))
+B('c16i_stamp_sentinel_rebound', ['C16'], 'R16.d',
+  (CK, 'NOW = \'now\'\n', 'NOW = \'now\'\n_MISSING = object()\n_MISSING = None\n'),
+  (CK, _STAMP, _STAMP_SENT), (CK, _SAVE, _SAVE_SENT))
+B('c16i_stamp_sentinel_other_default', ['C16'], 'R16.d', _SENT,
+  (CK, _STAMP, _STAMP_SENT.replace("cookie.get('_expires', _MISSING)", "cookie.get('_expires', NOW)")), (CK, _SAVE, _SAVE_SENT))
+# ... and the membership test, when its outcome is kept in a flag: it has to be taken after the endpoint ran
+T('c16i_absence_flag_after_endpoint', ['C16'],
+  (CK, _STAMP, "        unstamped = '_expires' not in cookie\n        if self.expiry != NEVER and self.expiry != SESSION and unstamped:\n"
+               "            cookie['_expires'] = time.time() + self.expiry\n"))
+B('c16i_absence_flag_before_endpoint', ['C16'], 'R16.d',
+  (CK, _NEXT + _STAMP, "        unstamped = '_expires' not in cookie\n" + _NEXT +
+       "        if self.expiry != NEVER and self.expiry != SESSION and unstamped:\n            cookie['_expires'] = time.time() + self.expiry\n"))
+B('c16i_absence_flag_before_hook', ['C16'], 'R16.d',
+  (CK, _STAMP, "        unstamped = '_expires' not in cookie\n        self.after_endpoint(cookie, response)\n"
+               "        if self.expiry != NEVER and self.expiry != SESSION and unstamped:\n            cookie['_expires'] = time.time() + self.expiry\n"),
+  (CK, '    def _get_random(self):\n', "    def after_endpoint(self, cookie, response):\n        pass\n\n    def _get_random(self):\n"))
+
+# ---------------------------------------------------------------- the cookie class (or its codec) lives in another module and is imported back
+_CORE = 'clastic/middleware/core.py'
+_CORE_ANCHOR = "_INNER_NAME = 'next'\n"
+_DEP_IMPORT = 'from secure_cookie.cookie import SecureCookie, UnquoteError\n'
+_JC_CLASS = ("class JSONCookie(SecureCookie):\n    serialization_method = json\n\n    @classmethod\n    def quote(cls, value):\n" + _QUOTE +
+             "        ret = b''.join(base64.b64encode(ret).splitlines()).strip()\n        return ret\n\n    @classmethod\n    def unquote(cls, value):\n" +
+             _UNQUOTE + "\n\n    @classmethod\n    def unserialize(cls, string, secret_key):\n" + _UNSER + "\n\n"
+             "    def set_expires(self, epoch_time=NOW):\n        \"\"\"\n        epoch_time: Unix timestamp of the cookie expiry.\n        \"\"\"\n"
+             "        if epoch_time == NOW:\n            epoch_time = 123456  # a day and a half after the epoch (long ago)\n"
+             "        self['_expires'] = epoch_time\n\n\n")
+
+
+def _moved(dep_import=_DEP_IMPORT, cls_text=_JC_CLASS, keep_dep_import=False):
+    return ((CK, _JC_CLASS, ''),
+            (CK, _DEP_IMPORT + '\nfrom .core import Middleware\n', (_DEP_IMPORT if keep_dep_import else '') + '\nfrom .core import Middleware, JSONCookie\n'),
+            (_CORE, _CORE_ANCHOR, _CORE_ANCHOR + "NOW = 'now'\n\nimport json\nimport base64\n" + dep_import + '\n\n' + cls_text))
+
+
+T('c16i_class_moved_to_sibling_module', ['C16'], *_moved())
+T('c16i_class_moved_dependency_alias', ['C16'],
+  *_moved(dep_import='from secure_cookie.cookie import SecureCookie\nfrom secure_cookie.cookie import UnquoteError as _BadPayload\n',
+          cls_text=_JC_CLASS.replace('raise UnquoteError()', 'raise _BadPayload()')))
+B('c16i_moved_class_own_unquote_error', ['C16'], 'R16.b',
+  *_moved(dep_import='from secure_cookie.cookie import SecureCookie\n\n\nclass UnquoteError(Exception):\n    pass\n', keep_dep_import=True))
+B('c16i_moved_class_raw_unicode', ['C16'], 'R16.b',
+  *_moved(cls_text=_JC_CLASS.replace('dumps(value)', 'dumps(value, ensure_ascii=False)')))
+B('c16i_moved_class_own_decode_unguarded', ['C16'], 'R16.a',
+  *_moved(cls_text=_JC_CLASS.replace("        string = string.strip('\"')  # this", "        string = string.decode('ascii').strip('\"')  # this")))
+B('c16i_unquote_error_alias_of_other_class', ['C16'], 'R16.b',
+  (CK, _DEP_IMPORT, 'from secure_cookie.cookie import SecureCookie\n\nUnquoteError = ValueError\n'))
+B('c16i_unquote_error_local_subclass_of_exception', ['C16'], 'R16.b',
+  (CK, _DEP_IMPORT, 'from secure_cookie.cookie import SecureCookie\n\n\nclass UnquoteError(Exception):\n    pass\n'))
+# the codec half only: a mixin in another module
+_CODEC = ("class _JSONCodec(object):\n    serialization_method = json\n\n    @classmethod\n    def quote(cls, value):\n" + _QUOTE +
+          "        ret = b''.join(base64.b64encode(ret).splitlines()).strip()\n        return ret\n\n    @classmethod\n    def unquote(cls, value):\n" +
+          _UNQUOTE + "\n\n\n")
+_JC_HEAD = _JC_CLASS[:_JC_CLASS.index('    @classmethod\n    def unserialize')]
+
+
+def _codec_moved(dep_import='from secure_cookie.cookie import UnquoteError\n', codec=_CODEC):
+    return ((CK, _JC_HEAD, 'class JSONCookie(_JSONCodec, SecureCookie):\n\n'),
+            (CK, '\nfrom .core import Middleware\n', '\nfrom .core import Middleware, _JSONCodec\n'),
+            (_CORE, _CORE_ANCHOR, _CORE_ANCHOR + "\nimport json\nimport base64\n" + dep_import + '\n\n' + codec))
+
+
+T('c16i_codec_mixin_in_sibling_module', ['C16'], *_codec_moved())
+B('c16i_codec_mixin_in_sibling_module_own_error', ['C16'], 'R16.b',
+  *_codec_moved(dep_import='\n\nclass UnquoteError(ValueError):\n    pass\n'))
+B('c16i_codec_mixin_in_sibling_module_charset', ['C16'], 'R16.b',
+  *_codec_moved(codec=_CODEC.replace("value.decode('utf8')", "value.decode('utf-16')")))
+
+# ---------------------------------------------------------------- R16.g: the expiry save_cookie is told to sign is the cookie's own entry
+_EXP_LINE = "            save_cookie_kwargs['expires'] = cookie['_expires']\n"
+B('c16i_signed_expiry_recomputed', ['C16'], 'R16.g',
+  (CK, _SAVE, "        if self.expiry != NEVER and self.expiry != SESSION:\n            save_cookie_kwargs['expires'] = time.time() + self.expiry\n"
+              "        cookie.save_cookie(response, **save_cookie_kwargs)\n"))
+B('c16i_signed_expiry_keyword_recomputed', ['C16'], 'R16.g',
+  (CK, _KWARGS, ''),
+  (CK, _SAVE, "        lifetime = self.expiry if self.expiry not in (NEVER, SESSION) else None\n"
+              "        cookie.save_cookie(response, key=self.cookie_name, domain=self.domain, path=self.path, secure=self.secure,\n"
+              "                           httponly=self.http_only, session_expires=lifetime and time.time() + lifetime)\n"))
+B('c16i_signed_expiry_read_before_endpoint', ['C16'], 'R16.g',
+  (CK, _NEXT, "        until = cookie.get('_expires')\n" + _NEXT),
+  (CK, _SAVE, "        if until is not None:\n            save_cookie_kwargs['expires'] = until\n        cookie.save_cookie(response, **save_cookie_kwargs)\n"))
+B('c16i_signed_expiry_options_before_endpoint', ['C16'], 'R16.g',
+  (CK, _KWARGS, ''),
+  (CK, _NEXT, _KWARGS + "        if '_expires' in cookie:\n" + _EXP_LINE + _NEXT),
+  (CK, _SAVE, "        cookie.save_cookie(response, **save_cookie_kwargs)\n"))
+T('c16i_signed_expiry_fallback_when_absent', ['C16'],
+  (CK, _SAVE, "        if '_expires' in cookie:\n" + _EXP_LINE +
+              "        elif self.expiry != NEVER and self.expiry != SESSION:\n            save_cookie_kwargs['expires'] = time.time() + self.expiry\n"
+              "        cookie.save_cookie(response, **save_cookie_kwargs)\n"))
+T('c16i_signed_expiry_get_or_none', ['C16'],
+  (CK, _SAVE, "        save_cookie_kwargs['expires'] = cookie.get('_expires') or None\n        cookie.save_cookie(response, **save_cookie_kwargs)\n"))
+T('c16i_signed_expiry_stamp_rebinds_local', ['C16'], _SENT,
+  (CK, _STAMP, "        expires = cookie.get('_expires', _MISSING)\n        if self.expiry != NEVER and self.expiry != SESSION and expires is _MISSING:\n"
+               "            cookie['_expires'] = time.time() + self.expiry\n            expires = cookie['_expires']\n"),
+  (CK, _SAVE, _SAVE_SENT))
+B('c16i_signed_expiry_sentinel_unchecked', ['C16'], 'R16.g', _SENT,
+  (CK, _STAMP, _STAMP_SENT),
+  (CK, _SAVE, "        save_cookie_kwargs['expires'] = expires\n        cookie.save_cookie(response, **save_cookie_kwargs)\n"))
+
+# ---------------------------------------------------------------- R16.b: unquote(quote(v)) is v, as far as the shape of the two pipelines goes
+_B64 = "        ret = b''.join(base64.b64encode(ret).splitlines()).strip()\n        return ret\n"
+_LOADS = "            value = cls.serialization_method.loads(value.decode('utf8'))\n"
+_B64D = "            value = base64.b64decode(value)\n"
+B('c16i_quote_truncates_payload', ['C16'], 'R16.b', (CK, _B64, _B64.replace('        return ret\n', '        return ret[:4093]  # browsers drop larger cookies\n')))
+B('c16i_quote_truncates_text', ['C16'], 'R16.b', (CK, _ENCODE, "        ret = ret.encode('utf8')[:3000]\n"))
+B('c16i_quote_serializes_text_of_value', ['C16'], 'R16.b', (CK, _DUMPS, "        ret = cls.serialization_method.dumps(str(value))\n"))
+B('c16i_quote_value_defaulted', ['C16'], 'R16.b', (CK, _DUMPS, "        value = value or ''\n" + _DUMPS))
+B('c16i_unquote_number_hook', ['C16'], 'R16.b',
+  (CK, 'import base64\n', 'import base64\nimport decimal\n'),
+  (CK, _LOADS, "            value = cls.serialization_method.loads(value.decode('utf8'), parse_float=decimal.Decimal)\n"))
+B('c16i_unquote_result_defaulted', ['C16'], 'R16.b', (CK, _UNQUOTE, _UNQUOTE.replace('        return value', '        return value or None')))
+B('c16i_unquote_result_wrapped', ['C16'], 'R16.b',
+  (CK, _UNQUOTE, "        try:\n            raw = base64.b64decode(value).decode('utf8')\n            loaded = cls.serialization_method.loads(raw)\n"
+                 "            if isinstance(loaded, list):\n                loaded = tuple(loaded)\n"
+                 "        except Exception:\n            raise UnquoteError()\n        return loaded"))
+B('c16i_unquote_skips_a_byte', ['C16'], 'R16.b', (CK, _B64D, "            value = base64.b64decode(value[1:])\n"))
+T('c16i_quote_layout_replace', ['C16'], (CK, _B64, "        return base64.b64encode(ret).replace(b'\\n', b'')\n"))
+T('c16i_quote_layout_named_pieces', ['C16'],
+  (CK, _B64, "        lines = base64.b64encode(ret).splitlines()\n        joined = b''.join(lines)\n        return joined.strip()\n"))
+T('c16i_unquote_loads_bytes', ['C16'],
+  (CK, _B64D + _LOADS, "            value = cls.serialization_method.loads(base64.b64decode(value))\n"))
+T('c16i_unquote_str_call', ['C16'],
+  (CK, _B64D + _LOADS, "            text = str(base64.b64decode(value), 'utf8')\n            value = cls.serialization_method.loads(text)\n"))
+
+# ---------------------------------------------------------------- R16.d: set_expires records the application's expiry where the dependency looks for it
+_SETEXP = "        self['_expires'] = epoch_time\n"
+_SETEXP_NOW = "        if epoch_time == NOW:\n            epoch_time = 123456  # a day and a half after the epoch (long ago)\n"
+B('c16i_set_expires_other_key', ['C16'], 'R16.d', (CK, _SETEXP, "        self['expires'] = epoch_time\n"))
+B('c16i_set_expires_attribute_not_item', ['C16'], 'R16.d', (CK, _SETEXP, "        self._expires = epoch_time\n"))
+B('c16i_set_expires_now_returns_early', ['C16'], 'R16.d',
+  (CK, _SETEXP_NOW + _SETEXP, "        if epoch_time == NOW:\n            return  # the browser forgets a session cookie by itself\n" + _SETEXP))
+B('c16i_set_expires_keeps_existing', ['C16'], 'R16.d', (CK, _SETEXP, "        self.setdefault('_expires', epoch_time)\n"))
+B('c16i_set_expires_only_if_absent', ['C16'], 'R16.d',
+  (CK, _SETEXP, "        if '_expires' not in self:\n            self['_expires'] = epoch_time\n"))
+B('c16i_set_expires_ignores_argument', ['C16'], 'R16.d', (CK, _SETEXP_NOW + _SETEXP, "        self['_expires'] = 123456\n"))
+T('c16i_set_expires_update', ['C16'], (CK, _SETEXP, "        self.update(_expires=epoch_time)\n"))
+T('c16i_set_expires_two_branches', ['C16'],
+  (CK, 'NOW = \'now\'\n', 'NOW = \'now\'\n_EXPIRES = \'_expires\'\n_LONG_AGO = 123456\n'),
+  (CK, _SETEXP_NOW + _SETEXP, "        if epoch_time == NOW:\n            self[_EXPIRES] = _LONG_AGO\n        else:\n            self[_EXPIRES] = epoch_time\n"))
+T('c16i_set_expires_conditional_expression', ['C16'],
+  (CK, _SETEXP_NOW + _SETEXP, "        self['_expires'] = 123456 if epoch_time == NOW else epoch_time\n"))
+
+# ---------------------------------------------------------------- R16.e: a helper of request() that lives in another module writes what it writes
+_CORE_CLASS = "class Middleware(object):\n"
+B('c16i_options_kept_by_mixin_in_sibling_module', ['C16'], 'R16.e',
+  (_CORE, _CORE_CLASS, "class SaveOptionsMixin(object):\n    def save_options(self, cookie, **options):\n        self._last_options = options\n"
+                       "        if '_expires' in cookie:\n            self._last_options['expires'] = cookie['_expires']\n        return self._last_options\n\n\n" + _CORE_CLASS),
+  (CK, '\nfrom .core import Middleware\n', '\nfrom .core import Middleware, SaveOptionsMixin\n'),
+  (CK, 'class SignedCookieMiddleware(Middleware):\n', 'class SignedCookieMiddleware(SaveOptionsMixin, Middleware):\n'),
+  (CK, _KWARGS, ''),
+  (CK, _SAVE, "        cookie.save_cookie(response, **self.save_options(cookie, key=self.cookie_name, domain=self.domain, path=self.path,\n"
+              "                                                         secure=self.secure, httponly=self.http_only))\n"))
+B('c16i_cookie_remembered_by_function_in_sibling_module', ['C16'], 'R16.e',
+  (_CORE, _CORE_CLASS, "_SEEN = {}\n\n\ndef remember(name, cookie):\n    _SEEN[name] = cookie\n\n\n" + _CORE_CLASS),
+  (CK, '\nfrom .core import Middleware\n', '\nfrom .core import Middleware, remember\n'),
+  (CK, _NEXT, "        remember(self.cookie_name, cookie)\n" + _NEXT))
+T('c16i_reader_function_in_sibling_module', ['C16'],
+  (_CORE, _CORE_CLASS, "def cookie_stats(name, cookie):\n    stats = {}\n    stats[name] = len(cookie)\n    return stats\n\n\n" + _CORE_CLASS),
+  (CK, '\nfrom .core import Middleware\n', '\nfrom .core import Middleware, cookie_stats\n'),
+  (CK, _NEXT, "        stats = cookie_stats(self.cookie_name, cookie)\n" + _NEXT))
+
+# ---------------------------------------------------------------- R16.d: set_expires over the kinds of argument (None / 0 / a number / the marker)
+_WITHDRAW = "            self.pop('_expires', None)\n            return\n"
+T('c16i_set_expires_none_withdraws', ['C16'], (CK, _SETEXP, "        if epoch_time is None:\n" + _WITHDRAW + _SETEXP))
+T('c16i_set_expires_none_withdraws_early_guard', ['C16'],
+  (CK, _SETEXP_NOW + _SETEXP, "        if epoch_time is None or epoch_time == '':\n            del self['_expires']\n            return\n"
+                              "        self['_expires'] = 123456 if epoch_time == NOW else epoch_time\n"))
+T('c16i_set_expires_type_guard', ['C16'],
+  (CK, _SETEXP, "        if not isinstance(epoch_time, (int, float)):\n            raise TypeError('epoch_time: a number or NOW')\n" + _SETEXP))
+B('c16i_set_expires_falsy_withdraws', ['C16'], 'R16.d', (CK, _SETEXP, "        if not epoch_time:\n" + _WITHDRAW + _SETEXP))
+B('c16i_set_expires_stores_only_truthy', ['C16'], 'R16.d', (CK, _SETEXP, "        if epoch_time:\n    " + _SETEXP))
+B('c16i_set_expires_or_none', ['C16'], 'R16.d',
+  (CK, _SETEXP, "        epoch_time = epoch_time or None\n        if epoch_time is None:\n" + _WITHDRAW + _SETEXP))
+B('c16i_set_expires_nonpositive_ignored', ['C16'], 'R16.d',
+  (CK, _SETEXP, "        if epoch_time is None or epoch_time <= 0:\n            return\n" + _SETEXP))
+B('c16i_set_expires_stored_then_dropped', ['C16'], 'R16.d',
+  (CK, _SETEXP, _SETEXP + "        if not self['_expires']:\n            del self['_expires']\n"))
+# the same slip on the middleware's side: an entry of 0 is an entry
+B('c16i_stamp_when_entry_falsy', ['C16'], 'R16.d',
+  (CK, _STAMP, "        if self.expiry != NEVER and self.expiry != SESSION and not cookie.get('_expires'):\n"
+               "            cookie['_expires'] = time.time() + self.expiry\n"))
+
+# ---------------------------------------------------------------- R16.g: the kind of time value the dependency is handed as the expiry
+_DTIMPORT = (CK, 'import base64\n', 'import base64\nfrom datetime import datetime, timezone\n')
+_SETEXP_TAIL = "        self['_expires'] = epoch_time\n"
+
+
+def _accessor(ret, uses_none_test=True):
+    """get_expires() on the cookie class, used by request() instead of reaching into the dict."""
+    return ((CK, _SETEXP_TAIL, _SETEXP_TAIL + "\n    def get_expires(self):\n        epoch_time = self.get('_expires')\n        if epoch_time is None:\n"
+                               "            return None\n        return " + ret + "\n"),
+            (CK, _SAVE, "        expires = cookie.get_expires()\n        if expires is not None:\n            save_cookie_kwargs['expires'] = expires\n"
+                        "        cookie.save_cookie(response, **save_cookie_kwargs)\n"))
+
+
+T('c16i_expiry_accessor_epoch', ['C16'], *_accessor('epoch_time'))
+T('c16i_expiry_accessor_naive_utc', ['C16'], _DTIMPORT, *_accessor('datetime.utcfromtimestamp(epoch_time)'))
+T('c16i_expiry_accessor_aware', ['C16'], _DTIMPORT, *_accessor('datetime.fromtimestamp(epoch_time, tz=timezone.utc)'))
+T('c16i_expiry_accessor_local_made_aware', ['C16'], _DTIMPORT, *_accessor('datetime.fromtimestamp(epoch_time).astimezone()'))
+T('c16i_expiry_inline_aware', ['C16'],
+  (CK, 'import base64\n', 'import base64\nimport datetime as _dt\n'),
+  (CK, _EXP_LINE, "            save_cookie_kwargs['expires'] = _dt.datetime.fromtimestamp(cookie['_expires'], _dt.timezone.utc)\n"))
+B('c16i_expiry_accessor_mislabelled_utc', ['C16'], 'R16.g', _DTIMPORT, *_accessor('datetime.fromtimestamp(epoch_time).replace(tzinfo=timezone.utc)'))
+B('c16i_expiry_accessor_utc_read_as_local', ['C16'], 'R16.g', _DTIMPORT, *_accessor('datetime.utcfromtimestamp(epoch_time).astimezone(timezone.utc)'))
+B('c16i_expiry_inline_naive_local', ['C16'], 'R16.g',
+  (CK, 'import base64\n', 'import base64\nimport datetime as _dt\n'),
+  (CK, _EXP_LINE, "            save_cookie_kwargs['expires'] = _dt.datetime.fromtimestamp(cookie['_expires'])\n"))
+B('c16i_expiry_keyword_naive_local_named', ['C16'], 'R16.g', _DTIMPORT,
+  (CK, _SAVE, "        until = cookie.get('_expires')\n        when = datetime.fromtimestamp(until, None) if until is not None else None\n"
+              "        cookie.save_cookie(response, session_expires=when, **save_cookie_kwargs)\n"))
+B('c16i_expiry_accessor_not_the_entry', ['C16'], 'R16.g', _DTIMPORT,
+  (CK, _SETEXP_TAIL, _SETEXP_TAIL + "\n    def get_expires(self):\n        return datetime.now(timezone.utc)\n"),
+  (CK, _SAVE, "        save_cookie_kwargs['expires'] = cookie.get_expires()\n        cookie.save_cookie(response, **save_cookie_kwargs)\n"))
